@@ -260,32 +260,23 @@ def judge(task):
         d.pop('used_index', None)
         ns = ctx.refs.get(L.canon(d))
         if ns is None and mode == 'read-only':
-            # the recorded open finding, and nothing but it: read-only, unfinished tail in the file,
-            # iterator(start) RAISED where the committed-prefix answer was expected, every other key
-            # (and every iterator(start) entry that did not raise) equal to the prefix's
-            d2 = {k: v for k, v in d.items() if k != 'iterator_start'}
-            ns2 = ctx.refs_noit.get(L.canon(d2))
-            if ns2:
-                for n in ns2:
-                    want, got = ctx.ref_dumps[n].get('iterator_start'), d.get('iterator_start')
-                    if len(data) > ctx.ends[n] and isinstance(got, list) and isinstance(want, list) and \
-                            len(got) == len(want) and got != want and \
-                            all(g == w or g in ITER_START_ERRORS for g, w in zip(got, want)):
-                        known.append(('C01:ro-iterator-start-raises-on-torn-tail',
-                                      'read-only reopen of a crash image with an unfinished tail: iterator(start) raises '
-                                      '%s instead of yielding the committed transactions from start on (all other '
-                                      'queries show prefix n=%d)' % (sorted({g for g in got if isinstance(g, str)}), n)))
-                        ns = [n]
-                        break
-        if ns is None and mode == 'read-only':
+            # the recorded open finding, and nothing but it (see c01_lib.classify_iterator_start)
             d2 = {k: v for k, v in d.items() if k != 'iterator_start'}
             for n in ctx.refs_noit.get(L.canon(d2)) or []:
-                if len(data) > ctx.ends[n] and n >= returned:
-                    return None, ('C01:ro-iterator-start-wrong-on-torn-tail', 'read-only reopen of a crash image with '
-                                  'an unfinished tail: every query shows prefix n=%d except iterator(start), which '
-                                  'starts at the WRONG transaction: got %s, prefix has %s'
-                                  % (n, str(d.get('iterator_start'))[:300],
-                                     str(ctx.ref_dumps[n].get('iterator_start'))[:300]))
+                if len(data) <= ctx.ends[n]:
+                    continue
+                kind = L.classify_iterator_start(d, ctx.ref_dumps[n], ctx.tids)
+                if kind:
+                    got = d.get('iterator_start')
+                    known.append(('C01:ro-iterator-start-%s-on-torn-tail' % kind,
+                                  'read-only reopen of a crash image with an unfinished tail: iterator(start) %s '
+                                  '(all other queries show prefix n=%d): got %s, prefix has %s'
+                                  % ('raises instead of yielding the committed transactions from start on'
+                                     if kind == 'raises' else 'for a start beyond the last committed tid positions '
+                                     'itself by the bytes of the torn tail and yields a transaction where nothing is '
+                                     'expected', n, str(got)[:200], str(ctx.ref_dumps[n].get('iterator_start'))[:200])))
+                    ns = [n]
+                    break
         if ns is None:
             # which prefix is closest, and on which keys does it differ?
             best = None
